@@ -38,19 +38,12 @@ def transparent_runs(rng, w, h, ct, depth):
     return rows
 
 
-def run(rep):
+def filter_alpha(rep, n, sig):
+    """filter_image with optimize_alpha on images with runs of transparent pixels: model correspondence and spec decode"""
     rng = rep.rng
-    quick = rep.tier == "quick"
     impl = os.path.join(rep.info["bin"], "implrun")
     model = os.path.join(vlib.BUILD, "ocaml", "modelrun")
-    rep.rule = ("(i) alpha variants of the reductions on structured images; (ii) filter_image with optimize_alpha on images with runs "
-                "of fully transparent pixels at row starts/ends and first rows of passes (10 strategies), decoded by the spec; "
-                "(iii) end to end with --alpha. Non-trivial = the implementation changed at least one byte.")
-    redcheck.run_reductions(rep, redcheck.ALPHA, 300 if quick else 4000, "alpha", "C03", big=not quick)
-
-    # (ii) filter_image with alpha optimisation
     cs = vlib.Cases()
-    n = 40 if quick else 500
     for k in range(n):
         ct, depth = rng.choice([(4, 8), (4, 16), (6, 8), (6, 16)])
         w, h = imggen.pick_dims(rng)
@@ -93,9 +86,24 @@ def run(rep):
     for oid, m in orc.meta.items():
         if ro.get(oid) not in ("eq", "alphaeq"):
             src = cs.meta[m["src"]]
-            rep.violation(f"C03:filter-alpha:{src['f']}", f"filter strategy {src['f']} with alpha optimisation changed alpha or the colour of a non-transparent pixel (relation {ro.get(oid)})",
+            rep.violation(f"{sig}:filter-alpha:{src['f']}", f"filter strategy {src['f']} with alpha optimisation: the written rows do not decode (specification) to the input up to the colour of fully transparent pixels (relation {ro.get(oid)})",
                           {"cases": [src["cmd"]], "impl": vlib.short(ri.get(m["src"]), 800), "relation": ro.get(oid)})
         rep.count("filter-alpha:" + str(ro.get(oid)))
+
+    return cs
+
+
+def run(rep):
+    rng = rep.rng
+    quick = rep.tier == "quick"
+    impl = os.path.join(rep.info["bin"], "implrun")
+    model = os.path.join(vlib.BUILD, "ocaml", "modelrun")
+    rep.rule = ("(i) alpha variants of the reductions on structured images; (ii) filter_image with optimize_alpha on images with runs "
+                "of fully transparent pixels at row starts/ends and first rows of passes (10 strategies), decoded by the spec; "
+                "(iii) end to end with --alpha. Non-trivial = the implementation changed at least one byte.")
+    redcheck.run_reductions(rep, redcheck.ALPHA, 300 if quick else 4000, "alpha", "C03", big=not quick)
+
+    cs = filter_alpha(rep, 40 if quick else 500, "C03")
 
     # (iii) end to end with --alpha
     cs2 = c01.gen_cases(rep, 300 if quick else 8000, "alpha")
